@@ -69,7 +69,7 @@ def replay(ctx, cases, what):
     for x in res:
         if x.get("summary"):
             continue
-        fam = cases[x["idx"]].get("_family", "?")
+        fam = cases[x["idx"]].get("_family", "?") if x["idx"] >= 0 else "fixed"
         ctx.violation("wire:%s:%s" % (fam, vlib.fp(x["m"])), "%s, family %s: %s" % (what, fam, x["diff"][:400]), x)
 
 
